@@ -434,6 +434,20 @@ def rule_r5(ctx):
                     rr.fail(f"C03-R5|{kind}|skeleton", f"{U.gen_map[kind].where()}: renders `{got}`: {bad} [{short_ctx(pr, 80)}]", where=U.gen_map[kind].where(), what=what)
                 else:
                     rr.ok(what, sample={"rule": "C03-R5", "kind": kind, "skeleton": got[:100]})
+            elif kind == "Subscript":
+                rr.instances += 1
+                flat = got.replace(" ", "")
+                one = any(k.startswith("cmp:len(") and "elts" in k and k.endswith("==1") and v is True for k, v in pr.assign.items())
+                # plain index, or a bare index tuple (needed when it contains slices): a one-element
+                # bare tuple needs its trailing comma
+                if flat == "<value>[<slice>]":
+                    rr.ok(what, sample={"rule": "C03-R5", "kind": "Subscript", "skeleton": got})
+                elif flat == "<value>[[<slice.elts>,...]]" and not one:
+                    rr.ok(what, sample={"rule": "C03-R5", "kind": "Subscript", "skeleton": got})
+                elif flat == "<value>[[<slice.elts>,...],]" and one:
+                    rr.ok(what, sample={"rule": "C03-R5", "kind": "Subscript", "skeleton": got})
+                else:
+                    rr.fail("C03-R5|Subscript|skeleton", f"{U.gen_map[kind].where()}: renders `{got}`; expected `<value>[<slice>]` or a bare index tuple `<value>[<e>,...]` (with a trailing comma iff it has one element) [{short_ctx(pr, 80)}]", where=U.gen_map[kind].where(), what=what)
             elif kind in REF_SKELETON:
                 rr.instances += 1
                 want = REF_SKELETON[kind]
